@@ -160,7 +160,7 @@ let run_exec (line : string) : string =
       let adv = List.map (parse_val hashes) (split_ws advs) in
       let fuel =
         let m = try Big_int_Z.int_of_big_int maxc with _ -> max_int in
-        nat_of_int (min (m + 2) fuel_cap) in
+        nat_of_int (min (2 * m + 4) fuel_cap) in
       (match exec_program fuel maxc prog stack adv with
        | Ok s ->
            Printf.sprintf "OK clk=%s fmp=%s ctx=%s stack=%s adv=%d mem=%s"
@@ -169,6 +169,15 @@ let run_exec (line : string) : string =
              (List.length s.adv) (mem_dump s.mem)
        | Err (e, s) -> Printf.sprintf "ERR %s clk=%s" (err_string e) (s_of_z s.clk))
   | _ -> failwith "bad exec case"
+
+let run_options (line : string) : string =
+  match split_ws line with
+  | [mc; e] ->
+      let mco = if mc = "none" then None else Some (z_of_string mc) in
+      (match exec_options_new mco (z_of_string e) with
+       | Some (m, x) -> Printf.sprintf "OK %s %s" (s_of_z m) (s_of_z x)
+       | None -> "ERR")
+  | _ -> failwith "bad options case"
 
 let () =
   let family = Sys.argv.(1) in
@@ -181,6 +190,7 @@ let () =
            try
              (match family with
               | "exec" -> run_exec line
+              | "options" -> run_options line
               | _ -> failwith "unknown family")
            with Failure m -> "DRIVER-FAIL " ^ m
               | Stack_overflow -> "DRIVER-FAIL stack overflow" in
